@@ -393,8 +393,34 @@ func checkC10(c *h.Check) {
 			}
 		})
 	}
+	// longer chains: 4 bindings; quick: written outermost-first / innermost-first with the provider first or last
+	{
+		var perms [][]int
+		if thorough {
+			permutations(5, func(p []int) { perms = append(perms, p) })
+		} else {
+			perms = [][]int{{0, 1, 2, 3, 4}, {4, 0, 1, 2, 3}, {3, 2, 1, 0, 4}, {4, 3, 2, 1, 0}, {1, 3, 0, 4, 2}}
+		}
+		for _, perm := range perms {
+			for _, mask := range []int{1, 31} {
+				for wrap := 0; wrap < 2; wrap++ {
+					prog := chainBindProgram(4, mask, perm, wrap)
+					id := fmt.Sprintf("C10/bind-chain/n=4/consumers=%b/perm=%v/wrap=%d", mask, perm, wrap)
+					cs := caseFromProgram(id, prog, true, map[string]bool{"wiring": true})
+					if w := ir.NewModel().Solve(prog.Injectors[0]); !w.Accepted() {
+						c.Internalf("C10 variant %s is not well-formed in the model: %v", id, w.Reasons)
+						continue
+					}
+					if c.NoteProgram(cs.Files) {
+						cases = append(cases, cs)
+						kinds.inc("bind-chain")
+					}
+				}
+			}
+		}
+	}
 	results := c.JudgeAll(cases)
-	stdCoverage(c, cases, results, "(e) chains of 2 (thorough: 3) bindings whose intermediate 'concrete' types are themselves interfaces bound in the same set, in every order of bindings and provider, for every set of consumers that includes the outermost interface, directly in wire.Build, in a named set and in an inline set; (d) three injectors over a base set and a set extending it (every declaration order, base first or last, three kinds of extension), and sets reached through a chain of 2-4 packages of which the injector's package imports only the first; well-formed bases (4-5 direct items covering value, interface value, parameter, function, struct value/pointer, field, pointer-to-field, binding; thorough adds a 6-item base): ALL permutations of the Build arguments (bindings move with their provider; quick tier: a FieldsOf also moves with the provider of its struct; inner order flipped too); ALL set partitions of the items (Bell(n)) x wrap mode {named set, set nested two deep, inline NewSet, set declared in another package, same variable name declared in two packages} x both argument orders. Every variant must be accepted, and its execution trace must match the model's wiring (which does not depend on order or grouping): a differential oracle against the base. Distinct = distinct rendered source.")
+	stdCoverage(c, cases, results, "chains of 4 bindings (quick: five orders; thorough: all 120) with the outermost or every link consumed; (e) chains of 2 (thorough: 3) bindings whose intermediate 'concrete' types are themselves interfaces bound in the same set, in every order of bindings and provider, for every set of consumers that includes the outermost interface, directly in wire.Build, in a named set and in an inline set; (d) three injectors over a base set and a set extending it (every declaration order, base first or last, three kinds of extension), and sets reached through a chain of 2-4 packages of which the injector's package imports only the first; well-formed bases (4-5 direct items covering value, interface value, parameter, function, struct value/pointer, field, pointer-to-field, binding; thorough adds a 6-item base): ALL permutations of the Build arguments (bindings move with their provider; quick tier: a FieldsOf also moves with the provider of its struct; inner order flipped too); ALL set partitions of the items (Bell(n)) x wrap mode {named set, set nested two deep, inline NewSet, set declared in another package, same variable name declared in two packages} x both argument orders. Every variant must be accepted, and its execution trace must match the model's wiring (which does not depend on order or grouping): a differential oracle against the base. Distinct = distinct rendered source.")
 	c.Coverage["variant_kinds"] = kinds.summary()
 	sampleCase(c, cases, results)
 	if len(cases) < 500 {
